@@ -292,3 +292,12 @@ pub fn write_evidence(
     }
     std::fs::write(path, serde_json::to_string_pretty(&ev).unwrap() + "\n")
 }
+
+/// Parse JSON without serde_json's nesting limit: scenarios may hold deliberately deep types.
+pub fn parse_json<T: serde::de::DeserializeOwned>(bytes: &[u8]) -> Result<T, String> {
+    let mut de = serde_json::Deserializer::from_slice(bytes);
+    de.disable_recursion_limit();
+    let v = T::deserialize(&mut de).map_err(|e| e.to_string())?;
+    de.end().map_err(|e| e.to_string())?;
+    Ok(v)
+}
